@@ -353,15 +353,46 @@ def family_cache_key(corr, family, tier, seed, strict):
     return "%s-%s-%s-%s-%s-%d" % (family, tier, seed, sha(corr), sha(DRIVER), 1 if strict else 0)
 
 
+WORK_CACHE_LIMIT = 1500 * 1024 * 1024   # bytes kept under .cache/work (every changed binary adds entries)
+
+
+def prune_work_cache():
+    """delete the least recently used transcripts until the cache is below its limit"""
+    try:
+        ents = []
+        for n in os.listdir(WORK):
+            p = os.path.join(WORK, n)
+            try:
+                st = os.stat(p)
+            except OSError:
+                continue
+            ents.append((st.st_mtime, st.st_size, p))
+        total = sum(e[1] for e in ents)
+        if total <= WORK_CACHE_LIMIT:
+            return
+        for _, size, p in sorted(ents):
+            try:
+                os.remove(p)
+            except OSError:
+                pass
+            total -= size
+            if total <= WORK_CACHE_LIMIT * 0.7:
+                break
+    except OSError:
+        pass
+
+
 def run_family(corr, base_corr, family, tier, seed, strict=False, keep=None):
     """returns dict(ops, impl, model, spec) restricted to `keep` prefixes; cached by binary hashes"""
     os.makedirs(WORK, exist_ok=True)
     key = family_cache_key(corr, family, tier, seed, strict) + "-" + sha(base_corr)
     cpath = os.path.join(WORK, "fam-" + hashlib.sha256(key.encode()).hexdigest()[:24] + ".json")
     data = None
-    if os.path.exists(cpath):
+    use_cache = tier != "thorough"      # thorough transcripts are gigabytes per configuration: never stored
+    if use_cache and os.path.exists(cpath):
         try:
             data = json.load(open(cpath))
+            os.utime(cpath, None)       # least-recently-used pruning below
         except Exception:
             data = None
     if data is None:
@@ -375,9 +406,11 @@ def run_family(corr, base_corr, family, tier, seed, strict=False, keep=None):
             model.append(m)
             spec.append(s)
         data = {"ops": ops, "impl": impl, "model": model, "spec": spec, "secs": time.time() - t}
-        tmp = cpath + ".tmp%d" % os.getpid()
-        json.dump(data, open(tmp, "w"))
-        os.replace(tmp, cpath)
+        if use_cache:
+            tmp = cpath + ".tmp%d" % os.getpid()
+            json.dump(data, open(tmp, "w"))
+            os.replace(tmp, cpath)
+            prune_work_cache()
         log("[corr] %s/%s seed=%s strict=%s: %d ops in %.1fs" % (family, tier, seed, strict, len(ops), data["secs"]))
     else:
         log("[corr] %s/%s seed=%s strict=%s: %d ops (cached, binaries unchanged)" % (family, tier, seed, strict, len(data["ops"])))
